@@ -127,7 +127,11 @@ pub fn op_place(args: &[Sexp], retry: bool) -> String {
                     // that still holds its content is simply placed again
                     let mut c = topptr.write().unwrap();
                     if let Some(ly) = c.layout.as_mut() {
-                        if ly.instances.iter().next().is_none() && ly.places.is_empty() {
+                        let held = |i: &Ptr<Instance>| ly.instances.iter().any(|x| x == i) || ly.places.iter().any(|p| matches!(p, Placeable::Instance(x) if x == i));
+                        let complete = insts.iter().all(held) && ly.places.iter().any(|p| matches!(p, Placeable::Array(_)));
+                        if !complete {
+                            ly.instances = Default::default();
+                            ly.places.clear();
                             ly.places.push(mk_array());
                             for i in &insts { ly.places.push(Placeable::Instance(i.clone())); }
                         }
